@@ -6,7 +6,9 @@ import (
 	"fmt"
 	"go/token"
 	"go/types"
+	"os"
 	"strings"
+	"time"
 
 	"golang.org/x/tools/go/ssa"
 )
@@ -73,6 +75,8 @@ type Exec struct {
 	neid     int
 	escaped  map[*ssa.Alloc]bool // locals whose address was needed as a value (re-run with them on the heap)
 	forceHeap map[*ssa.Alloc]bool
+	okCache  map[string]bool
+	curPC    Term // path condition under which spec formulas are being compiled (for proveNow)
 	heapInv  bool // assume closure of the entry heap under allocation (needed by epoch-stable spec functions)
 	nlocal   int
 	Active   map[string]*Contract // schema contracts usable at recursive call sites
@@ -320,7 +324,60 @@ func (x *Exec) load(st State, p Value, typ types.Type, guard Term, site string) 
 	}
 	t := x.C.Def("ld", x.loadAddr(st, a))
 	x.assumeTypeInv(st, guard, t, typ)
+	x.markElem(t)
 	return VT(t, typ)
+}
+
+// proveNow decides a side condition against the facts collected so far (no path condition), with a
+// short timeout; used to resolve heap-agreement conditions of entry-stable spec functions while the
+// VC is generated. A proved condition is also recorded as an obligation of kind "stable".
+func (x *Exec) proveNow(cond Term) bool {
+	if x.okCache == nil {
+		x.okCache = map[string]bool{}
+	}
+	pc := BoolLit(true)
+	if x.curPC.S != "" {
+		pc = x.curPC
+	}
+	ckey := pc.S + "|" + cond.S
+	if v, ok := x.okCache[ckey]; ok {
+		return v
+	}
+	g := &Goal{Name: fmt.Sprintf("%s#stable#%d", fnKey(x.Top), len(x.okCache)), Func: fnKey(x.Top), Kind: "stable",
+		Text: "heap component agrees with the entry heap below the entry allocation mark (side condition of an entry-stable spec function)", Guard: pc.S, Body: cond.S}
+	g.upto = len(x.C.Items)
+	q := x.C.Query(g, nil)
+	r, _ := race(q, buildWorkdir(), sanitize(g.Name), 3*time.Second, false)
+	ok := r.Status == "unsat"
+	x.okCache[ckey] = ok
+	if ok {
+		x.C.AddGoal(g, pc, cond)
+	}
+	return ok
+}
+
+var buildWorkdirPath string
+
+func buildWorkdir() string {
+	if buildWorkdirPath == "" {
+		d, err := os.MkdirTemp("", "gvc-build-")
+		if err != nil {
+			d = os.TempDir()
+		}
+		buildWorkdirPath = d
+	}
+	return buildWorkdirPath
+}
+
+// markElem: interface values read from the heap carry the trigger guard of the heap-wide
+// element invariants (elemMark is uninterpreted and only ever asserted positively).
+func (x *Exec) markElem(t Term) {
+	if t.Sort != SVal {
+		return
+	}
+	if _, ok := x.E.Funcs["elemMark"]; ok {
+		x.C.Assume(BoolLit(true), T(SBool, app("elemMark", t.S)))
+	}
 }
 
 func (x *Exec) loadField(st State, fa *Addr, site string) Value {
@@ -328,7 +385,11 @@ func (x *Exec) loadField(st State, fa *Addr, site string) Value {
 		x.havoc(site + ": nested struct field")
 		return x.freshValue(fa.Typ, "ldf")
 	}
-	return VT(x.loadAddr(st, fa), fa.Typ)
+	v := VT(x.loadAddr(st, fa), fa.Typ)
+	if v.Kind == VTerm {
+		x.markElem(v.T)
+	}
+	return v
 }
 
 func (x *Exec) store(st State, p Value, v Value, typ types.Type, site string) {
@@ -718,9 +779,12 @@ func (x *Exec) entryHeapInv(name string, t Term) {
 		x.C.Assume(BoolLit(true), T(SBool, fmt.Sprintf("(forall ((a Int) (i Int)) (! (okval (select (select %s a) i) %s) :pattern ((select (select %s a) i))))", t.S, al, t.S)))
 	case "Mem_Slice":
 		x.C.Assume(BoolLit(true), T(SBool, fmt.Sprintf("(forall ((a Int) (i Int)) (! (okslice (select (select %s a) i) %s) :pattern ((select (select %s a) i))))", t.S, al, t.S)))
-	case "Cell_stack":
+	case "Cell_stack", "F_nodeConfig_enc":
 		x.C.Assume(BoolLit(true), T(SBool, fmt.Sprintf("(forall ((q Int)) (! (okslice (select %s q) %s) :pattern ((select %s q))))", t.S, al, t.S)))
-	case "F_condition_ex", "F_condition_op", "F_nodeConfig_err":
+	case "F_condition_op":
+		// static type Operator: nil or a dynamic type that implements it
+		x.C.Assume(BoolLit(true), T(SBool, fmt.Sprintf("(forall ((q Int)) (! (and (okval (select %s q) %s) (or (= (select %s q) nilv) (isOperator (select %s q)))) :pattern ((select %s q))))", t.S, al, t.S, t.S, t.S)))
+	case "F_condition_ex", "F_nodeConfig_err":
 		x.C.Assume(BoolLit(true), T(SBool, fmt.Sprintf("(forall ((q Int)) (! (okval (select %s q) %s) :pattern ((select %s q))))", t.S, al, t.S)))
 	case "F_condition_cfg", "F_Stack_stack", "F_Condition_condition", "F_nodeConfig_log", "F_nodeConfig_mtx":
 		x.C.Assume(BoolLit(true), T(SBool, fmt.Sprintf("(forall ((q Int)) (! (okref (select %s q) %s) :pattern ((select %s q))))", t.S, al, t.S)))
